@@ -78,7 +78,7 @@ def design_desc(draw):
         subs.append({"name": names[draw(INT(0, 3))], "w": draw(INT(1, 4)), "src": PICK(draw, targets),
                      "dom": PICK(draw, doms), "anon": draw(BOOL), "inst": draw(BOOL), "mem": draw(INT(0, 2)) == 0})
     for sub in subs:
-        sub["rawmem"] = draw(INT(0, 2)) == 0
+        sub["rawmem"] = PICK(draw, [0, 0, 0, 1, 2])     # 1: kept by the module, 2: kept by a component under EnableInserter
         sub["inst_kept"] = draw(BOOL)
         if draw(INT(0, 2)) == 0:
             kd, dom = "kd", sub["dom"]
@@ -142,6 +142,7 @@ def rtlil_body(ctx, batch):
         if any(s["inst"] for s in desc["subs"]): keys.append("rtlil:instance-with-clocksignal")
         if any(s["mem"] for s in desc["subs"]): keys.append("rtlil:memory")
         if any(s.get("rawmem") for s in desc["subs"]): keys.append("rtlil:kept-memory-primitive")
+        if any(s.get("rawmem") == 2 for s in desc["subs"]): keys.append("rtlil:kept-memory-primitive-under-enable-inserter")
         if any(s["inst"] and s.get("inst_kept") for s in desc["subs"]): keys.append("rtlil:component-returning-a-kept-instance")
         if any(s.get("keeper") for s in desc["subs"]): keys.append("rtlil:renamer-around-kept-clock-domain")
         if any(s.get("keeper") and renamer_revisits(s["keeper"]["map"]) for s in desc["subs"]):
@@ -174,6 +175,15 @@ def make_sim(case, log):
                     log.append((t, -2, c.elapsed_time().femtoseconds, readout(c)))
                 return tb
             sim.add_testbench(mk())
+        if case.get("generator_testbench"):
+            # the older generator style (still accepted): restarted from its beginning by reset() like any other
+            from amaranth.sim import Tick
+            def gen():
+                for k in range(case["generator_testbench"]):
+                    yield Tick(cds["a"])
+                    v = yield o.cnt
+                    log.append(("gen", k, v))
+            sim.add_testbench(gen)
     return sim, o
 
 
@@ -209,6 +219,7 @@ def sim_body(ctx, case):
         raise first_difference("reset-rerun-vs-fresh-simulator", log2, second)
     keys = ["sim:history"]
     if partial is not None: keys.append("sim:partial-run-before-reset")
+    if case.get("generator_testbench"): keys.append("sim:generator-style-testbench")
     if case["adder_process"] or case["counter_process"] or case.get("mux_process"): keys.append("sim:with-processes")
     if any(op[0] == "setx" and op[1] in ("wa_en", "wb_en") and op[2] for sc in case["scripts"] for op in sc): keys.append("sim:memory-written")
     ctx.note(case, partial is not None, *keys, evals=3 * max(len(second), 1))
@@ -226,6 +237,7 @@ def sim_cases(draw):
     case = draw(c08.perm_cases(1, 8))
     h = c08.horizon(case["design"], case["scripts"])
     case["partial"] = draw(INT(1, max(h // 3, 2))) if draw(INT(0, 2)) else None
+    case["generator_testbench"] = draw(INT(1, 4)) if draw(INT(0, 2)) == 0 else 0
     return case
 
 
@@ -394,6 +406,6 @@ def parts(tier):
 
 REQUIRED = ["rtlil:design", "rtlil:>=2-implicit-domains", "rtlil:name-clash", "rtlil:anonymous-submodule",
             "rtlil:instance-with-clocksignal", "rtlil:memory", "rtlil:renamer-around-kept-clock-domain",
-            "rtlil:renamer-map-revisits-a-name", "rtlil:kept-memory-primitive",
-            "rtlil:component-returning-a-kept-instance", "lib:component-converted-twice", "sim:history", "sim:partial-run-before-reset",
+            "rtlil:renamer-map-revisits-a-name", "rtlil:kept-memory-primitive", "rtlil:kept-memory-primitive-under-enable-inserter",
+            "rtlil:component-returning-a-kept-instance", "lib:component-converted-twice", "sim:history", "sim:generator-style-testbench", "sim:partial-run-before-reset",
             "sim:with-processes", "sim:memory-written", "plan:icestorm", "plan:trellis", "plan:apicula"]
